@@ -21,6 +21,7 @@ import (
 
 	ch "github.com/ClickHouse/ch-go"
 	"github.com/ClickHouse/ch-go/proto"
+	"go.opentelemetry.io/otel/trace"
 )
 
 func init() { runners["c13"] = runC13 }
@@ -43,6 +44,7 @@ type c13Follow struct {
 	order    []byte // 'g' progress, 'f' profile
 	pingWant string // ok | exception | fail
 	pingExc  []proto.Exception
+	span     *trace.SpanContext // the caller's context of the follow-up Do carries this (valid) span
 }
 
 type c13Case struct {
@@ -99,8 +101,13 @@ func (cs *c13Case) line() string {
 		for _, p := range q.Parameters {
 			ps = append(ps, sx(hx([]byte(p.Key)), hx([]byte(p.Value))))
 		}
+		span := "nil"
+		if p := cs.follow.span; p != nil {
+			t, s := p.TraceID(), p.SpanID()
+			span = sx("span", hx(t[:]), hx(s[:]), hx([]byte(p.TraceState().String())), strconv.Itoa(int(p.TraceFlags())))
+		}
 		fu = sx("do", sx(hx([]byte(q.QueryID)), hx([]byte(q.Body)), hx([]byte(q.QuotaKey)), hx([]byte(q.InitialUser)),
-			sx(sets...), sx(ps...)), hx(cs.follow.fed))
+			sx(sets...), sx(ps...), span), hx(cs.follow.fed))
 	}
 	return fmt.Sprintf("hs %s %s %s %s %s %s %s",
 		cs.mode,
@@ -423,7 +430,11 @@ func (cs *c13Case) runFollow(conn *c13Conn, client *ch.Client, ver int, base int
 			gotProfile = append(gotProfile, p)
 			return nil
 		}
-		err := client.Do(ctx, q)
+		dctx := ctx
+		if f.span != nil {
+			dctx = trace.ContextWithSpanContext(ctx, *f.span)
+		}
+		err := client.Do(dctx, q)
 		wrote := conn.Written()[base:]
 		end := "ok"
 		if err != nil {
@@ -456,6 +467,9 @@ func (cs *c13Case) runFollow(conn *c13Conn, client *ch.Client, ver int, base int
 				InitialAddress: cs.addr, ClientName: cs.clientName(), QuotaKey: q.QuotaKey}}
 		for _, s := range q.Settings {
 			pq.Settings = append(pq.Settings, proto.Setting{Key: s.Key, Value: s.Value, Important: s.Important})
+		}
+		if f.span != nil {
+			pq.Info.Span = *f.span
 		}
 		pq.EncodeAware(&want, ver)
 		proto.ClientCodeData.Encode(&want)
@@ -584,6 +598,22 @@ func c13GenFollow(h *H, ver int, force string) c13Follow {
 			q.Parameters = append(q.Parameters, proto.Parameter{Key: "p" + string(genShortBytes(h.R)), Value: c13Str(h)})
 		}
 		f.query = q
+		if h.R.Intn(2) == 0 {
+			// a traced caller: a valid span, any flags byte, sometimes a trace state
+			var cfg trace.SpanContextConfig
+			h.R.Read(cfg.TraceID[:])
+			h.R.Read(cfg.SpanID[:])
+			cfg.TraceID[h.R.Intn(16)] |= 1
+			cfg.SpanID[h.R.Intn(8)] |= 1
+			cfg.TraceFlags = trace.TraceFlags([]int{0, 1, 1, 2, 3, 255, h.R.Intn(256)}[h.R.Intn(7)])
+			if h.R.Intn(3) == 0 {
+				if ts, err := trace.ParseTraceState("k=v"); err == nil {
+					cfg.TraceState = ts
+				}
+			}
+			sc := trace.NewSpanContext(cfg)
+			f.span = &sc
+		}
 		var b proto.Buffer
 		for i, n := 0, h.R.Intn(4); i < n; i++ {
 			if h.R.Intn(4) == 0 {
